@@ -166,3 +166,82 @@ func (e *expander) stmt(s ast.Stmt) ast.Stmt {
 	}
 	return s
 }
+
+// Flatten gives the body of fd with every statement that only calls a function of the same package (or hands
+// one over as a method value, as in once.Do(ctx.shutdown)) replaced by that function's body, recursively and
+// in nested statements too. For the rules that follow the order of events through one lifecycle method: the
+// sequence of events is the same whether it is written in one function or split over helpers.
+func (c *Ctx) Flatten(p *packages.Package, fd *ast.FuncDecl) *ast.BlockStmt {
+	f := &flattener{c: c, p: p, on: map[*ast.FuncDecl]bool{fd: true}}
+	return f.block(fd.Body, 0)
+}
+
+type flattener struct {
+	c  *Ctx
+	p  *packages.Package
+	on map[*ast.FuncDecl]bool
+}
+
+func (f *flattener) calleeBody(call *ast.CallExpr) *ast.FuncDecl {
+	info := f.p.TypesInfo
+	if fn := Callee(info, call); fn != nil && fn.Pkg() == f.p.Types {
+		if d := f.c.Decl(fn); d != nil && d.Body != nil && !f.on[d] {
+			return d
+		}
+	}
+	// X.Do(recv.method): the method's body runs here
+	if len(call.Args) == 1 {
+		if sel, ok := unparen(call.Args[0]).(*ast.SelectorExpr); ok {
+			if fn, ok := info.Uses[sel.Sel].(*types.Func); ok && fn.Pkg() == f.p.Types {
+				if d := f.c.Decl(fn); d != nil && d.Body != nil && !f.on[d] {
+					return d
+				}
+			}
+		}
+	}
+	return nil
+}
+
+func (f *flattener) block(b *ast.BlockStmt, depth int) *ast.BlockStmt {
+	if b == nil {
+		return nil
+	}
+	out := &ast.BlockStmt{Lbrace: b.Lbrace, Rbrace: b.Rbrace}
+	for _, s := range b.List {
+		if es, ok := s.(*ast.ExprStmt); ok && depth < 4 {
+			if call, ok := es.X.(*ast.CallExpr); ok {
+				if d := f.calleeBody(call); d != nil {
+					f.on[d] = true
+					out.List = append(out.List, f.block(d.Body, depth+1).List...)
+					delete(f.on, d)
+					continue
+				}
+			}
+		}
+		out.List = append(out.List, f.stmt(s, depth))
+	}
+	return out
+}
+
+func (f *flattener) stmt(s ast.Stmt, depth int) ast.Stmt {
+	switch x := s.(type) {
+	case *ast.BlockStmt:
+		return f.block(x, depth)
+	case *ast.IfStmt:
+		cp := *x
+		cp.Body = f.block(x.Body, depth)
+		if x.Else != nil {
+			cp.Else = f.stmt(x.Else, depth)
+		}
+		return &cp
+	case *ast.ForStmt:
+		cp := *x
+		cp.Body = f.block(x.Body, depth)
+		return &cp
+	case *ast.RangeStmt:
+		cp := *x
+		cp.Body = f.block(x.Body, depth)
+		return &cp
+	}
+	return s
+}
